@@ -170,9 +170,8 @@ Definition s_polydiv (self_ : (list (T A))) (v_ : (list (T A))) : res (((list (T
        then (Ok (inr EZeroDiv))
        else (let q_ := (@nil (T A)) in
             let r_ := self_ in
-            let MAX_ := 1000 in
             let count_ := 0 in
-            let* o17 := while_ret (S MAX_) (fun (s16 : ((list (T A)) * (list (T A)) * nat)) =>
+            let* o17 := while_ret (S 1000) (fun (s16 : ((list (T A)) * (list (T A)) * nat)) =>
                     let '(q_, r_, count_) := s16 in
                     let* c3 := if (negb (is_zero r_))
                         then (match (pdegree r_) with
@@ -205,7 +204,7 @@ Definition s_polydiv (self_ : (list (T A))) (v_ : (list (T A))) : res (((list (T
                                                  let* r_ := ptrim r_ in
                                                  let* q_ := ptrim q_ in
                                                  let count_ := (count_ + 1)%nat in
-                                                 if (MAX_ <? count_)%nat
+                                                 if (1000 <? count_)%nat
                                                  then (Ok (WRet (inr EMaxIter)))
                                                  else (Ok (WNext (q_, r_, count_)))
                                              | None => Panic Unwrap
